@@ -680,3 +680,25 @@ Definition xen_guest_from_range (m : mode) (o : os) (base size : N) (file : opti
    and is_hugetlbfs() returns it (:341-343).  It takes part in no decision of from_range (it is not a field of
    xrange: nothing above can look at it). *)
 Definition xen_region_huge (range_huge : option bool) : option bool := range_huge.  (* :274 *)
+
+(* ------------------------------------------------------------------------------------------
+   The privcmd request of a foreign range (added for C15, 0.7.w9).
+
+   xen.rs:627-641  MmapXenForeign::mmap_ioctl(&self, count)
+       let base = self.guest_base.0 / page_size();
+       let mut pfn = Vec::with_capacity(count);
+       for i in 0..count { pfn.push(base + i as u64); }
+       ...
+       let map = PrivCmdMmapBatchV2 { num: count as u32, domid: self.domid as u16, addr: self.addr() as *mut c_void,
+                                      arr: pfn.as_ptr(), err: err.as_mut_ptr() };
+   with self.domid = range.mmap_data (:617), self.guest_base = range.addr (:618), count = pages(range.size).0 (:605).
+   `base + i as u64`: base <= 2^64 / page_size and i < count <= 2^64 / page_size + 1, the sum stays below 2^64 for
+   every page size >= 4: the overflow branch of `+` cannot be reached, plain addition. *)
+Fixpoint foreign_pfns (base i : N) (count : nat) {struct count} : list N :=
+  match count with
+  | O => []
+  | S k => (base + i) :: foreign_pfns base (i + 1) k                               (* :631-633 *)
+  end.
+(* (domid as u16, the frame list) *)
+Definition foreign_req (ps : N) (r : xrange) (count : N) : N * list N :=
+  (x_mdata r mod 65536, foreign_pfns (x_addr r / ps) 0 (N.to_nat count)).           (* :628, :638 *)
